@@ -28,8 +28,8 @@ MANIFEST = {
     'technique': 'stateless exploration of all thread schedules with a bounded number of preemptions (CHESS iterative context '
                  'bounding) of request pairs on the real application under a sys.settrace-driven scheduler; oracle = handler '
                  'observations and full responses equal the stand-alone run',
-    'text': 'For pairs of the request kinds (13 pairs quick, all 36 thorough), every schedule with <=1 preemption at source-line '
-            'granularity, and with <=2 preemptions at function-entry granularity (thorough: all pairs; three pairs at '
+    'text': 'For pairs of the request kinds (25 pairs quick, all 210 thorough), every schedule with <=1 preemption at source-line '
+            'granularity, and with <=2 preemptions at function-entry granularity (thorough: all pairs of the first ten kinds and the quick tier\'s pairs; two pairs at '
             'line granularity; triples at <=1) is executed on a fresh application '
             'and fresh threads; what each handler read and each complete response must equal the stand-alone run.',
     'note': 'Bounds: preemptions as stated, 2-3 threads, line granularity. Trusted: sys.settrace delivering every line event, '
@@ -414,9 +414,12 @@ def _shards(tier, seed):
             out += _split(om, kinds, 1, 4, False)
         out += _split(om, ('dm', 'dm', 'dm'), 1, 12, False)
     else:
-        for kinds in pairs():
+        # two preemptions at function-entry granularity: all pairs of the first ten kinds and the pairs of the quick tier
+        deep = [p for p in pairs() if p[0] in KINDS[:10] and p[1] in KINDS[:10]]
+        deep += [p for p in QUICK_PAIRS if p not in deep]
+        for kinds in deep:
             out += _split(om, kinds, 2, 16, 'call', 'call')
-        for kinds in (('getq', 'raise'), ('wild', 'wild'), ('crash', '404')):
+        for kinds in (('getq', 'raise'), ('wild', 'wild')):
             out += _split(om, kinds, 2, 64, False)
         for kinds in pairs():
             out += _split(om, kinds, 1, 2, False)
@@ -431,7 +434,7 @@ def _shards(tier, seed):
 
 
 def bounds(tier, seed):
-    return {'request_kinds': KINDS, 'pairs': len(pairs()), 'preemption_bound': '1 at line granularity for 20 pairs and two triples' if tier == 'quick' else '2 at function-entry granularity for all pairs, 2 at line granularity for three pairs, 1 at line granularity for all pairs and five triples, 1 at opcode granularity (plumbing files) for two pairs',
+    return {'request_kinds': KINDS, 'pairs': len(pairs()), 'preemption_bound': '1 at line granularity for 25 pairs and two triples' if tier == 'quick' else '2 at function-entry granularity for all pairs of the first ten kinds and the pairs of the quick tier, 2 at line granularity for two pairs, 1 at line granularity for all 210 pairs and five triples, 1 at opcode granularity (plumbing files) for two pairs',
             'granularity': 'source line' + ('' if tier == 'quick' else '; opcode events in common_helpers.py/response.py for two pairs'),
             'threads': '2' if tier == 'quick' else '2-3'}
 
@@ -509,4 +512,4 @@ def _replay(case):
     return (f'requests {list(kinds)} on one application, threads switched at scheduling points {sw[:12]} '
             f'(of {len(x.choices)}): {v[1]}')
 
-MANIFEST['text'] += ' 20 request kinds, among them static_file downloads through the default application, the first error pages of a process, 405 answers with different Allow sets and routes guarded by route hooks (23 pairs + two triples in the quick tier).'
+MANIFEST['text'] += ' 20 request kinds, among them static_file downloads through the default application, the first error pages of a process, 405 answers with different Allow sets and routes guarded by route hooks (25 pairs + two triples in the quick tier).'
